@@ -427,13 +427,14 @@ def r5(ctx):
     ok = len(calls) == 4 and len(ctor) == 1 and len(ctor[0].args) == 4 and all(any(x is c for x in walk_no_nested(a)) for a, c in zip(ctor[0].args, calls))
     detail = f'_readFastqRecord: {len(calls)} readline() calls feeding the {len(ctor[0].args) if ctor else 0} FastqRecord fields positionally'
     wit = None
-    if not ok:
-        # written another way (a comprehension over range(4), keyword construction ...): the method is run on a model handle that hands out numbered lines
+    if True:
+        # whatever the shape (four calls, a comprehension over range(4), keyword construction ...): the method is run on a model handle that hands out numbered lines,
+        # the last of them without a line terminator (a file that does not end in a newline)
         try:
             from ..consteval import module_scope, Evaluator, Instance
             env = module_scope(ctx.ix, FQITER)
             # (the second record is a read of length zero: its sequence and quality lines are blank and still are lines of the record)
-            lines = ['@L1 \n', 'L2\n', 'L3\n', 'L4\n', '@M1\n', '\n', '+\n', '\n', '@N1\n', 'N2\n', '+\n', 'N4\n']
+            lines = ['@L1 \n', 'L2\n', 'L3\n', 'L4\n', '@M1\n', '\n', '+\n', '\n', '@N1\n', 'N2\n', '+\n', 'N4']
             state = {'k': 0}
 
             def hook(ev, call, env_):
@@ -452,7 +453,8 @@ def r5(ctx):
             detail = f'_readFastqRecord interpreted on a model handle: three calls consume {state["k"]} lines and give {got}' + ('' if ok else f', expected {want} from 12 lines')
             wit = None if ok else {'lines of the handle': lines, 'records': got, 'lines consumed': state['k']}
         except Exception as e_:
-            detail += f' (and the method is outside the interpreted subset: {type(e_).__name__}: {str(e_)[:60]})'
+            if not ok:
+                detail += f' (and the method is outside the interpreted subset: {type(e_).__name__}: {str(e_)[:60]})'
     ctx.emit('C01-R5', ok, FQITER, f, detail, key='four-readlines', witness=wit)
     m = ctx.ix.module(FQITER)
     nt = [s for s in ast.walk(m.tree) if isinstance(s, ast.Assign) and src(s.targets[0]) == 'FastqRecord']
